@@ -133,22 +133,76 @@ func runKindPairing(p *Prog, r *Report) {
 				return true
 			}
 			want := kindPairs[kind]
-			judgeVal := func(v ast.Expr, at ast.Node) string {
-				if isNilIdent(info, v) {
+			var judgeIn func(jf *Func, v ast.Expr, at ast.Node, depth int) string
+			judgeIn = func(jf *Func, v ast.Expr, at ast.Node, depth int) string {
+				jinfo := jf.Info()
+				if isNilIdent(jinfo, v) {
 					return ""
 				}
-				vt := info.TypeOf(v)
+				vt := jinfo.TypeOf(v)
 				if vt == nil {
 					return "untyped value"
+				}
+				if isSchemaIface(vt) && depth < 3 {
+					switch x := ast.Unparen(v).(type) {
+					case *ast.CallExpr:
+						// a helper that selects the schema: judge everything it returns
+						if cf := calleeOf(jinfo, x); cf != nil {
+							if callee := p.FuncOf[cf]; callee != nil && callee.Body != nil {
+								msg := ""
+								ast.Inspect(callee.Body, func(m ast.Node) bool {
+									if _, isLit := m.(*ast.FuncLit); isLit {
+										return false
+									}
+									if rs, ok := m.(*ast.ReturnStmt); ok && len(rs.Results) >= 1 && msg == "" {
+										msg = judgeIn(callee, rs.Results[0], rs, depth+1)
+									}
+									return msg == ""
+								})
+								return msg
+							}
+						}
+					case *ast.Ident:
+						o := jinfo.ObjectOf(x)
+						if o != nil && !jf.isParam(o) {
+							for _, asn := range jf.Assignments(o) {
+								switch st := asn.(type) {
+								case *ast.AssignStmt:
+									if len(st.Lhs) != len(st.Rhs) {
+										return "schema variable assigned from a multi-value expression"
+									}
+									for i, l := range st.Lhs {
+										if lid, ok := ast.Unparen(l).(*ast.Ident); ok && jinfo.ObjectOf(lid) == o {
+											if msg := judgeIn(jf, st.Rhs[i], st, depth+1); msg != "" {
+												return msg + " at " + p.Pos(st)
+											}
+										}
+									}
+								case *ast.ValueSpec:
+									for i, nid := range st.Names {
+										if jinfo.ObjectOf(nid) == o && i < len(st.Values) {
+											if msg := judgeIn(jf, st.Values[i], st, depth+1); msg != "" {
+												return msg + " at " + p.Pos(st)
+											}
+										}
+									}
+								default:
+									return "schema variable assigned in an unsupported way"
+								}
+							}
+							return ""
+						}
+					}
 				}
 				if _, isPtr := vt.(*types.Pointer); !isPtr || !typeIs(vt, "hcl-lang/schema", want) {
 					return "value of type " + vt.String() + " paired with an *hclsyntax." + kind + " node (want *schema." + want + " or nil)"
 				}
-				if !c5.nonNilAt(fn, v, at) {
+				if !c5.nonNilAt(jf, v, at) {
 					return "possibly nil *schema." + want + " converted to the schema interface (typed nil: validators test nodeSchema == nil and then dereference)"
 				}
 				return ""
 			}
+			judgeVal := func(v ast.Expr, at ast.Node) string { return judgeIn(fn, v, at, 0) }
 			st := info.TypeOf(schArg)
 			if isSchemaIface(st) {
 				// interface-typed variable: judge every assignment
